@@ -89,7 +89,7 @@ namespace
                         bool w = r.chance(mostly_wait ? 5 : 1, 6);
                         int64_t hq = two_queues ? (int64_t)r.below(2) : 0;
                         if (delegates && r.chance(1, 3)) p.ops.push_back({OP_ACT, t, 4, (r.chance(1, 4) ? 1 : 0) + (r.chance(1, 3) ? 2 : 0), hq}); // bit 1: re-arm the handler while parked
-                        else if (w) p.ops.push_back({OP_ACT, t, 0, r.chance(1, 4) ? 1 : 0, hq});
+                        else if (w) p.ops.push_back({OP_ACT, t, 0, r.chance(1, 4) ? (int64_t)(1 + 2 * r.below(4)) : 0, hq});
                         else
                         {
                             int kind = r.chance(1, 5) ? 2 : (r.chance(1, 8) ? 3 : 1);
@@ -294,7 +294,11 @@ namespace
                             wait_head[t] = (int)mod(a.b, 2);
                             if (wait_head[t]) probe("second_wait_queue");
                             thr::api_enter();
-                            prog_wait(heads[wait_head[t]], (int)mod(a.a, 2));
+                            {
+                                // any non-zero priority is a priority (the callers in the tree pass 0 or WAIT_PRIORITY, the parameter is an int)
+                                static const int PRIO[8] = {0, 1, 0, 2, 0, -1, 0, 7};
+                                prog_wait(heads[wait_head[t]], PRIO[mod(a.a, 8)]);
+                            }
                             thr::api_exit();
                         }
                         else if (k == 3)
